@@ -1,4 +1,5 @@
 import RPVerif.Lemmas.Sched
+import RPVerif.Lemmas.NodeList
 
 /-!
 # C02 — A granted placement has exactly the requested shape
@@ -63,5 +64,28 @@ theorem C02_ranks_per_node (c : Cfg) (r : Req) (cps : Nat) (h : r.rpn ≠ 0) : s
   unfold slotsPerNode
   simp only [h, ne_eq, not_false_eq_true, if_true]
   split <;> split <;> split <;> omega
+
+/-! ## the application-level slot finder -/
+
+open RPVerif.NodeList in
+/-- a slot of `Node.find_slot` lies on the searched node and has exactly the requested number of
+    cores and GPUs, each with the requested occupation, and the requested storage and memory -/
+theorem C02_nodelist_slot_shape (n n' : ANode) (rr : RR) (s : ASlot) (h : findSlot n rr = some (s, n')) :
+    s.node = n.index ∧ s.cores.length = rr.nCores ∧ s.gpus.length = rr.nGpus ∧ s.lfs = rr.lfs ∧ s.mem = rr.mem
+    ∧ (∀ e ∈ s.cores, e.2 = rr.coreOcc) ∧ (∀ e ∈ s.gpus, e.2 = rr.gpuOcc) := by
+  obtain ⟨_, hs, hc, hg, _⟩ := findSlot_spec n n' rr s h
+  refine ⟨by rw [hs]; rfl, hc, hg, by rw [hs]; rfl, by rw [hs]; rfl, ?_, ?_⟩
+  · intro e he
+    rw [hs] at he
+    simp only [mkSlot, pickCores] at he
+    split at he
+    · exact ((scan_spec _ _ 0 _).2.1 e he).2.1
+    · cases he
+  · intro e he
+    rw [hs] at he
+    simp only [mkSlot, pickGpus] at he
+    split at he
+    · exact ((scan_spec _ _ 0 _).2.1 e he).2.1
+    · cases he
 
 end RPVerif.C02
